@@ -1630,6 +1630,17 @@ def m_regex_captures(I, args, fn, expr):
 @model("regex::Regex::new")
 def m_regex_new(I, args, fn, expr):
     I.emit("regex.new", summary(args[0]))
+    pat = strip(args[0])
+    text = pat.concrete() if isinstance(pat, StrB) else (pat if isinstance(pat, str) else None)
+    if text is not None:
+        # a concrete expression the regex parser rejects (e.g. a descending class range) is an error for certain
+        from . import rx
+        try:
+            rx.parse(text)
+        except rx.RxSyntax as e:
+            return err(Adt("regex::Error", "Syntax", {"0": str(e)}))
+        except rx.RxError:
+            pass
     s = Sym("Regex::new(%s)" % _nm(args[0]), expr["ty"] if expr else None)
     s.pattern = strip(args[0])
     return s
@@ -1840,3 +1851,101 @@ def m_index(I, args, fn, expr):
     if isinstance(base, Top):
         raise Abort("index of unanalysable value: %s" % base.reason)
     return Sym("index(%s,%s)" % (_nm(base), _nm(ix)), expr["ty"] if expr else None)
+
+
+@model("itertools::Itertools::coalesce")
+def m_coalesce(I, args, fn, expr):
+    src = _as_iter(I, args[0])
+    f = args[1]
+    state = {"last": None, "done": False}
+
+    def nxt():
+        if state["done"]:
+            raise StopIteration
+        if state["last"] is None:
+            state["last"] = [src.next()]
+        while True:
+            try:
+                cur = src.next()
+            except StopIteration:
+                state["done"] = True
+                return state["last"][0]
+            r = res(I, I.call_value(f, [state["last"][0], cur]))
+            if r.variant == "Ok":
+                state["last"] = [r.fields["0"]]
+            else:
+                pair = strip(r.fields["0"])
+                out = pair.items[0]
+                state["last"] = [pair.items[1]]
+                return out
+    return RIter(nxt, "coalesce")
+
+
+@model("itertools::Itertools::dedup")
+def m_dedup(I, args, fn, expr):
+    src = _as_iter(I, args[0])
+    state = {"last": None}
+
+    def nxt():
+        while True:
+            cur = src.next()
+            if state["last"] is not None and values_equal(I, state["last"][0], cur):
+                continue
+            state["last"] = [cur]
+            return cur
+    return RIter(nxt, "dedup")
+
+
+@model("itertools::Itertools::intersperse", "std::iter::Iterator::intersperse")
+def m_intersperse(I, args, fn, expr):
+    items = drain(I, _as_iter(I, args[0]))
+    out = []
+    for i, x in enumerate(items):
+        if i:
+            out.append(deep_copy(strip(args[1])))
+        out.append(x)
+    return iter_of(I, RList(out), by_ref=False)
+
+
+@model("std::iter::Iterator::eq")
+def m_iter_eq(I, args, fn, expr):
+    a = drain(I, _as_iter(I, args[0]))
+    b = drain(I, _as_iter(I, m_into_iter(I, [args[1]], fn, None)))
+    return len(a) == len(b) and all(values_equal(I, x, y) for x, y in zip(a, b))
+
+
+@model("std::iter::Iterator::max", "std::iter::Iterator::min")
+def m_iter_minmax(I, args, fn, expr):
+    items = drain(I, _as_iter(I, args[0]))
+    if not items:
+        return none()
+    best = items[0]
+    for x in items[1:]:
+        o = _ordering_of(I, fn, strip(best), strip(x))
+        if fn["name"] == "max" and o != "Greater":
+            best = x
+        if fn["name"] == "min" and o == "Greater":
+            best = x
+    return some(best)
+
+
+def _char_pred(pred, name):
+    def m(I, args, fn, expr):
+        c = strip(args[0])
+        if isinstance(c, Char):
+            return pred(c.c)
+        if isinstance(c, int) and not isinstance(c, bool):
+            return pred(chr(c)) if 0 <= c < 0x110000 else False
+        return Sym("%s(%s)" % (name, _nm(c)), expr["ty"] if expr else None)
+    return m
+
+
+for _name, _pred in (("is_ascii", lambda ch: ord(ch) < 128), ("is_alphabetic", str.isalpha), ("is_numeric", str.isnumeric),
+                     ("is_alphanumeric", str.isalnum), ("is_whitespace", str.isspace), ("is_lowercase", str.islower),
+                     ("is_uppercase", str.isupper), ("is_ascii_digit", lambda ch: ch in "0123456789"),
+                     ("is_ascii_alphabetic", lambda ch: ord(ch) < 128 and ch.isalpha()),
+                     ("is_ascii_punctuation", lambda ch: ord(ch) < 128 and not ch.isalnum() and not ch.isspace() and 32 < ord(ch) < 127),
+                     ("is_control", lambda ch: ord(ch) < 32 or 127 <= ord(ch) < 160)):
+    MODELS["std::char::methods::<impl char>::%s" % _name] = _char_pred(_pred, _name)
+    MODELS["core::char::methods::<impl char>::%s" % _name] = _char_pred(_pred, _name)
+MODELS["core::num::<impl u8>::is_ascii"] = _char_pred(lambda ch: ord(ch) < 128, "is_ascii")
